@@ -133,6 +133,7 @@ func baseOpts(extra map[string]any) []risor.Option {
 
 // EvalOutcome is what one API call returned, or the panic it let through.
 type EvalOutcome struct {
+	done   atomic.Bool // same as Done, readable from other goroutines in parallel windows
 	Done   bool
 	Result object.Object
 	Err    error
@@ -154,6 +155,9 @@ func (o *EvalOutcome) String() string {
 	}
 }
 
+// IsDone is Done, safe to call from another goroutine.
+func (o *EvalOutcome) IsDone() bool { return o.done.Load() }
+
 // IsAbort reports whether the outcome is the teardown sentinel surfacing as an
 // error (the run was ended by the harness, not by the program).
 func (o *EvalOutcome) IsAbort() bool {
@@ -167,6 +171,7 @@ func guard(out *EvalOutcome, fn func() (object.Object, error)) {
 			out.Panic = r
 		}
 		out.Done = true
+		out.done.Store(true)
 	}()
 	out.Result, out.Err = fn()
 }
